@@ -34,6 +34,8 @@ CONSTANTS
     UpgraderSem,      \* remote upgrader on a full semaphore: "drop" the request (code) | "block"
     Reloads,          \* default parameter sets the operator may switch to by a configuration reload (SIGHUP); {} = never
     IOFaults,         \* TRUE: a write may be refused by the library with an I/O error (full disk, unusable work area)
+    CallerWait,       \* "forever": a caller waits for its answer as long as it takes (code) | "giveup": a caller may stop
+                      \* waiting (a time limit on the call) although the reply goes to its own unbuffered response channel
     MaxCalls,         \* calls per client
     Kinds,            \* request kinds clients may issue
     InitFiles         \* initial directory
@@ -197,8 +199,15 @@ DispNotify ==
     /\ disp' = [disp EXCEPT !.pc = IF disp.req.c = UpgradeClient THEN "done" ELSE "reply"]
     /\ UNCHANGED <<chans, files, cl, upq, sem, ack, dflt>>
 
+\* (wrong design "giveup": the caller has left, nobody will ever receive from the response channel - the send blocks for good)
+ClientGiveUp(c) ==
+    /\ CallerWait = "giveup" /\ cl[c].pc = "waiting"
+    /\ cl' = [cl EXCEPT ![c] = [@ EXCEPT !.pc = "idle", !.op = NoOp]]
+    /\ UNCHANGED <<chans, disp, files, notifyQ, upq, sem, ack, owed, dflt>>
+
 DispReply ==
     /\ disp.pc = "reply"
+    /\ CallerWait = "giveup" => cl[disp.req.c].pc = "waiting"
     /\ cl' = [cl EXCEPT ![disp.req.c] = [@ EXCEPT !.pc = "idle", !.op = NoOp]]
     /\ disp' = Idle
     /\ UNCHANGED <<chans, files, notifyQ, upq, sem, ack, owed, dflt>>
@@ -245,6 +254,7 @@ DispReload(d) ==
 CoreNext ==
     \/ \E c \in Clients, op \in Ops : ClientCall(c, op)
     \/ \E c \in Clients : ClientSend(c)
+    \/ \E c \in Clients : ClientGiveUp(c)
     \/ DispNext \/ HooksRecv \/ UpgraderRecv \/ UploadDone
 
 Next == \/ CoreNext
